@@ -678,6 +678,25 @@ func runC04(w *W) {
 			c := pick(r, embedContexts)
 			text = c.Pre + q + c.Post
 			desc = "gen-select-ctx:" + c.Name + fmt.Sprintf(":%05x", mask)
+		} else if mask&1 == 0 && mask&(3<<16) == 0 && r.Chance(1, 5) {
+			// … and some through the second printer of SELECT: a query without its own WITH that inherits one (a later
+			// UNION member, or the SELECT of WITH … INSERT), optionally with the rarely used clause forms
+			extra := pick(r, []string{"", "", " INTERPOLATE ()", " INTERPOLATE (x AS x + 1)"})
+			if !strings.Contains(q, "ORDER BY") || strings.Contains(q, "LIMIT") || strings.Contains(q, "OFFSET") {
+				extra = ""
+			}
+			if extra != "" {
+				q = strings.Replace(q, " ORDER BY "+"", " ORDER BY ", 1) + " WITH FILL" + extra
+				if strings.Contains(q, " WITH FILL WITH FILL") {
+					q = strings.Replace(q, " WITH FILL WITH FILL", " WITH FILL", 1)
+				}
+			}
+			if r.Chance(1, 2) {
+				text = "WITH 1 AS k SELECT k UNION ALL " + q
+			} else {
+				text = "WITH 5 AS w INSERT INTO t " + q
+			}
+			desc = fmt.Sprintf("gen-select-inherited:%05x", mask)
 		}
 		c04Statement(w, idx, text, desc)
 	}
